@@ -46,9 +46,18 @@ def showKeys (s : St) (ks : List Nat) : String :=
 
 def sortNat (l : List Nat) : List Nat := (l.toArray.qsort (· < ·)).toList
 
+/-- records with the same expiration time have no specified order among themselves: each run of equal times is
+    printed sorted by key -/
+def canonIdx (s : St) (l : List Nat) : List Nat :=
+  let (done, cur) := l.foldl (fun (acc : List Nat × List Nat) k =>
+    match acc.2 with
+    | [] => (acc.1, [k])
+    | c :: _ => if (s.recs c).exp == (s.recs k).exp then (acc.1, acc.2 ++ [k]) else (acc.1 ++ sortNat acc.2, [k])) ([], [])
+  done ++ sortNat cur
+
 def stateLine (s : St) : String :=
   let present := sortNat (s.born.filter (fun k => (s.recs k).present))
-  s!"idx=[{",".intercalate (s.index.map keyName)}] keys={showKeys s present}"
+  s!"idx=[{",".intercalate ((canonIdx s s.index).map keyName)}] keys={showKeys s present}"
 
 def doStep (d : DSt) (a : Act) : Option (St × Bool) := step d.cfg d.sp a
 
@@ -60,9 +69,10 @@ def setTh (d : DSt) (t : Th) : DSt := { d with ths := d.ths.map (fun u => if u.n
 def showRec (s : St) (k : Nat) : String := s!"{keyName k}:{if (s.recs k).void then "void" else statusName (s.recs k).status}"
 
 /-- the selection pass of a shift claim: what it took, with the copies made there -/
-def selectShift (d : DSt) (c n : Nat) (want : Option Nat) : Option (DSt × List (Nat × String)) :=
+def selectShift (d : DSt) (c n : Nat) (want : Option Nat) (hide : List Nat := []) : Option (DSt × List (Nat × String)) :=
   -- a pass that only tries the guards skips the records whose guard is held; they stay indexed
-  let held := if d.guardUnderBeaconLock then [] else heldKeys d
+  -- (`hide`: the records outside the time window of the request, which the predicate rejects)
+  let held := (if d.guardUnderBeaconLock then [] else heldKeys d) ++ hide
   let idx0 := d.sp.1.index
   let d := if held.isEmpty then d else { d with sp := ({ d.sp.1 with index := idx0.filter (fun k => !held.contains k) }, d.sp.2) }
   match doStep d (.shift c n want) with
@@ -97,8 +107,8 @@ def deleteShift (d : DSt) (c : Nat) (taken : List (Nat × String)) : DSt × Stri
   (d', "keys=[" ++ ",".intercalate out ++ "]" ++ String.join (flags.map (fun f => "\t#F:" ++ f)))
 
 /-- a synchronous shift claim -/
-def doShift (d : DSt) (c n : Nat) (want : Option Nat) : DSt × String :=
-  match selectShift d c n want with
+def doShift (d : DSt) (c n : Nat) (want : Option Nat) (hide : List Nat := []) : DSt × String :=
+  match selectShift d c n want hide with
   | none => (d, "ERR")
   | some (d1, taken) => deleteShift d1 c taken
 
@@ -257,6 +267,13 @@ def step (d : DSt) (line : String) : DSt × String :=
         match how.toNat?, mx.toNat?, doStep d (.snapshot 8 (statusCode st)) with
         | some h, some m, some sp' => doShift { d with sp := sp' } 8 (if m > 0 && m < h then m else h) (some (statusCode st))
         | _, _, _ => (d, "bad-op")
+      | ["shiftw", how, lo, hi, st] =>
+        -- FromTime / ToTime on the expiration time: the half-open window [lo, hi)
+        match how.toNat?, lo.toInt?, hi.toInt?, doStep d (.snapshot 8 (statusCode st)) with
+        | some h, some l, some u, some sp' =>
+          let outside := sp'.1.index.filter (fun k => !(l ≤ (sp'.1.recs k).exp && (sp'.1.recs k).exp < u))
+          doShift { d with sp := sp' } 8 h (some (statusCode st)) outside
+        | _, _, _, _ => (d, "bad-op")
       | ["state"] => (d, stateLine d.sp.1)
       | _ => (d, "bad-op")
     else if d.mode == "stress" then
